@@ -37,7 +37,7 @@ PROPS = {
         K('lemma_score_gt_neg1', 'C11.kani.lemma.scores_are_finite_and_above_the_start_score', kind='lemma'),
     ]),
     'C05': dict(units=['core_all', 'events', 'route', 'conns'], level='proof'),
-    'C09': dict(units=['core_all', 'events', 'route', 'reg', 'drain', 'conns'], level='proof', kani=[
+    'C09': dict(units=['core_all', 'events', 'route', 'reg', 'drain', 'conns', 'hk'], level='proof', kani=[
         K('decoders_total_and_layouts_le24', 'C09.kani.decoders_never_panic_on_short_frames', kind='bounded', bound='every byte string of length 0..=24'),
     ]),
     'C10': dict(units=['core_all', 'events', 'route', 'hk'], level='proof'),
